@@ -2,25 +2,38 @@
 Correspondence: Model.Permute.permute (mk_mapper w ic cmtn) ~ fgutils.permutation.PermutationMapper(w, ic, cmtn).permute,
 Model.MapMatrix.{mm_init,is_mapping} ~ fgutils.permutation.MappingMatrix.{__init__,is_mapping}.
 Result lists are compared exactly, including their order."""
+import contextlib
 import copy
+import io
 import itertools
 
+import networkx as nx
+
+import gens
 import lib
 import coqterm as ct
+from props import _match_common as mc
 from fgutils.permutation import PermutationMapper, MappingMatrix
+from fgutils.algorithm.subgraph import map_subgraph2
 
 ID = "C08"
 REPEAT_PROBE = True   # engine: repeat 1 call in 5 after editing its first result in place (purity / no shared state)
 PROPS = "Props/C08.v"
-MODEL_FILES = ["Model/Permute.v", "Model/MapMatrix.v", "Spec/PermuteSpec.v", "Spec/PermuteCheck.v"]
-IMPORTS = "From FGV Require Import Base.Sym Model.Permute Model.MapMatrix Spec.PermuteSpec Spec.PermuteCheck."
+MODEL_FILES = ["Model/Permute.v", "Model/MapMatrix.v", "Model/MapSubgraph2.v", "Spec/PermuteSpec.v", "Spec/PermuteCheck.v",
+               "Spec/MinMappingSpec.v"]
+IMPORTS = ("From FGV Require Import Base.Sym Model.Permute Model.MapMatrix Model.Match Model.MapSubgraph2 Spec.Embedding "
+           "Spec.PermuteSpec Spec.PermuteCheck Spec.MinMappingSpec.")
 CHECKS = ["agree", "spec"]
 CHUNK = 24
 CORRESPONDENCE = ("Model.Permute.permute (mk_mapper wildcard ignore_case can_map_to_nothing) ~ "
                   "fgutils.permutation.PermutationMapper(...).permute (exact list equality incl. order; the model's "
                   "de-duplication compares lists where Python compares set(mapping): identical because every mapping "
                   "lists the pattern positions 0..k-1 in order); Model.MapMatrix.{mm_init,is_mapping} ~ "
-                  "MappingMatrix.{__init__,is_mapping} (the private symbol->index dict is abstracted)")
+                  "MappingMatrix.{__init__,is_mapping} (the private symbol->index dict is abstracted); "
+                  "Model.MapMatrix.min_mapping_symbol ord ~ MappingMatrix.min_mapping_symbol and Model.MapSubgraph2.map_subgraph2 ord ~ "
+                  "fgutils.algorithm.subgraph.map_subgraph2 (stdout suppressed), where ord = the row numbering of the private dict "
+                  "__s2i (enumeration of a Python set, PYTHONHASHSEED dependent) READ FROM THE IMPLEMENTATION for each case: with it the "
+                  "reported pair / the result list incl. order and the exception class are compared exactly; integers for numpy float64")
 RULE = ("batch cases: one pattern list x ALL structure lists of length 0..n over the alphabet {C,c,H,R,O}; mapper settings = "
         "wildcard in {None,'R'} x ignore_case x can_map_to_nothing in {[],[H],[R],[H,R],[R,H],'H' (bare string),[H,H],"
         "[C,c],[H,O],[R,H,R]} (40 settings). quick: every pattern of length 0..3 x n=3 for 16 settings ([],[H],[H,R],[R,H]) and "
@@ -30,8 +43,18 @@ RULE = ("batch cases: one pattern list x ALL structure lists of length 0..n over
         "substrings are listed in can_map_to_nothing, the empty symbol; matrix cases: MappingMatrix over random symbol "
         "lists, full is_mapping table incl. a symbol that is not registered (KeyError). One batch case stands for "
         "(5^(n+1)-1)/4 evaluations of permute. non-trivial = non-empty pattern and at least one non-empty result "
-        "(matrix: at least one True and one False cell); distinct = distinct (kind, mapper setting, lists)")
-TRUSTED = ["ASCII symbols (str.lower modelled on ASCII)", "the symbol->index dict of MappingMatrix is abstracted to the symbols themselves"]
+        "(matrix: at least one True and one False cell); distinct = distinct (kind, mapper setting, lists). "
+        "minmap cases: MappingMatrix(psyms, ssyms).min_mapping_symbol(ps, ss) over random symbol lists (70% the lists the matrix "
+        "was built from, 20% a matrix over more symbols, 10% an unregistered symbol; occasionally pattern longer than structure); "
+        "sub2 cases: map_subgraph2(host, pattern, mapper) with the matcher generators of C03/C04 (random hosts <= 7 nodes, planted / "
+        "decorated / near-miss / random patterns, arbitrary ids and dict orders; 6% disconnected, 3% empty pattern, 4% host smaller "
+        "than pattern; can_map_to_nothing [] in 80%), each run with matrix=None and with the matrix it would build (answers must be equal); "
+        "check spec = the order-free specification (some minimal pair) and, for can_map_to_nothing = [], is_embedding of every reported mapping")
+TRUSTED = ["ASCII symbols (str.lower modelled on ASCII)", "the symbol->index dict of MappingMatrix is abstracted to the symbols themselves",
+           "min_mapping_symbol: numpy float64 arithmetic modelled by integers (all values are products of list lengths); the row numbering "
+           "of the matrix is read from the private attribute _MappingMatrix__s2i",
+           "map_subgraph2: Model/Match.v as the model of map_anchored_subgraph (tied separately by C03/C04), Model/Rule.is_connected for "
+           "the nx.connected_components test; print() not modelled"]
 ASSUMPTIONS = ["pattern/structure/can_map_to_nothing entries are Python str (printable ASCII); wildcard is None or a str"]
 EXHAUSTIVE = {"quick": True, "thorough": True}
 
@@ -149,6 +172,73 @@ def rand_matrix(rng):
 SMALL3 = ["C", "H", "R"]
 
 
+def matrix_order(mm):
+    """row numbering of a MappingMatrix: the symbols in the order of the private dict __s2i (hash dependent)"""
+    s2i = mm._MappingMatrix__s2i
+    return [s for s, _ in sorted(s2i.items(), key=lambda kv: kv[1])]
+
+
+def rand_minmap(rng):
+    """MappingMatrix(psyms, ssyms).min_mapping_symbol(ps, ss): mostly the lists the matrix was built from
+    (what map_subgraph2 does), sometimes other lists over the registered symbols, rarely an unknown symbol or
+    a pattern longer than the structure"""
+    alpha, ws = rng.choice(RAND_ALPHAS[:2] + [(["C", "O", "N", "H", "R", "c"], [None, "R", "R"])])
+    w = rng.choice(ws)
+    ic = rng.random() < 0.4
+    cm = [rng.choice(alpha) for _ in range(rng.choice([0, 0, 0, 1, 2]))]
+    sub = alpha[:rng.randint(1, len(alpha))]
+    ss = [rng.choice(sub) for _ in range(rng.randint(0 if rng.random() < 0.05 else 1, 7))]
+    k = rng.randint(0 if rng.random() < 0.1 else 1, max(1, len(ss))) if rng.random() < 0.9 else rng.randint(0, 8)
+    ps = [rng.choice(ss + ([w] if w else []) + alpha[:2]) for _ in range(k)]
+    r = rng.random()
+    if r < 0.7:
+        psyms, ssyms = list(ps), list(ss)
+    elif r < 0.9:      # matrix over more symbols than the query
+        psyms = ps + [rng.choice(alpha + ([w] if w else [])) for _ in range(rng.randint(1, 3))]
+        ssyms = ss + [rng.choice(alpha) for _ in range(rng.randint(0, 2))]
+    else:              # some query symbol unknown to the matrix
+        psyms, ssyms = ps[:-1] if ps else [], ss[1:]
+    return {"kind": "minmap", "w": w, "ic": ic, "cmtn": cm, "psyms": psyms, "ssyms": ssyms, "ps": ps, "ss": ss}
+
+
+def rand_sub2(rng):
+    """map_subgraph2(host, pattern, mapper): planted / decorated / near-miss / random patterns from the matcher
+    generators, arbitrary ids and dict orders; sometimes a disconnected or empty pattern, a pattern larger
+    than the host, symbols without any partner"""
+    host = mc.rand_host(rng, 7)
+    r = rng.random()
+    kind = "planted"
+    if r < 0.6:
+        p, _ = mc.plant(rng, host, 4)
+        w, ic = rng.choice(mc.MAPPERS)
+        if w == "R" and ic and rng.random() < 0.6:
+            mc.decorate(rng, p, w)
+            kind = "decorated"
+        if rng.random() < 0.2:
+            kind = "miss-" + mc.near_miss(rng, p, False)
+    else:
+        p = mc.rand_pattern(rng, False)
+        w, ic = rng.choice(mc.MAPPERS)
+        kind = "random"
+    r = rng.random()
+    if r < 0.06 and p.number_of_nodes() >= 1:          # second component
+        n = max(p.nodes) + 1
+        p.add_node(n, symbol=rng.choice(["C", "O"]))
+        kind = "disconnected"
+    elif r < 0.09:
+        p = nx.Graph()
+        kind = "empty"
+    elif r < 0.13:
+        host = host.subgraph(list(host.nodes)[:max(1, p.number_of_nodes() - 1)]).copy()
+        kind = "host-smaller"
+    cm = [] if rng.random() < 0.8 else rng.choice([["H"], ["H", "R"]])
+    host, hs, _ = gens.reid(rng, host)
+    p, ps_, _ = gens.reid(rng, p) if p.number_of_nodes() else (p, "contig", {})
+    return {"kind": "sub2", "w": w, "ic": ic, "cmtn": cm, "G": host, "P": p, "gkind": kind, "scheme": hs + "/" + ps_}
+
+
+
+
 def generate(seed, tier, ncases=None):
     quick = tier == "quick"
     # --- exhaustive batches -------------------------------------------------------------
@@ -180,6 +270,11 @@ def generate(seed, tier, ncases=None):
             yield rand_matrix(rng)
         else:
             yield rand_single(rng, big=(i % 5 == 3))
+    # --- min_mapping_symbol and map_subgraph2 ------------------------------------------------
+    n2 = (ncases // 2) if ncases is not None else (300 if quick else 4000)
+    for i in range(n2):
+        rng = lib.rng_for(seed, ID + "x", i)
+        yield rand_minmap(rng) if i % 2 == 0 else rand_sub2(rng)
 
 
 def corpus():
@@ -196,6 +291,32 @@ def corpus():
     # D8: multi-letter symbols in the matrix
     yield {"kind": "matrix", "w": "R", "ic": False, "cmtn": ["H"], "psyms": ["Cl", "C", "R", "H"], "ssyms": ["Cl", "C", "Br"], "extra": ["Zz"]}
     yield {"kind": "matrix", "w": None, "ic": True, "cmtn": [], "psyms": ["Cl", "cl", "C"], "ssyms": ["CL", "c", "Si"], "extra": []}
+    yield from corpus_ext()
+
+
+def _path(syms, bonds=None):
+    g = nx.Graph()
+    for i, s in enumerate(syms):
+        g.add_node(i, symbol=s)
+    for i in range(len(syms) - 1):
+        g.add_edge(i, i + 1, bond=(bonds[i] if bonds else 1))
+    return g
+
+
+def corpus_ext():
+    # tie between (C,C) and (O,O): the reported pair (and map_subgraph2's result list) depends on PYTHONHASHSEED
+    yield {"kind": "minmap", "w": "R", "ic": True, "cmtn": [], "psyms": ["C", "O"], "ssyms": ["C", "O", "O", "C"],
+           "ps": ["C", "O"], "ss": ["C", "O", "O", "C"]}
+    yield {"kind": "sub2", "w": "R", "ic": True, "cmtn": [], "G": _path(["C", "O", "C", "O"]), "P": _path(["C", "O"]),
+           "gkind": "corpus-tie", "scheme": "contig/contig"}
+    # a matrix over more symbols than the query: the minimal pair may name a symbol that is not in the query
+    yield {"kind": "minmap", "w": "R", "ic": True, "cmtn": [], "psyms": ["C", "R"], "ssyms": ["C"], "ps": ["C"], "ss": ["C"]}
+    # errors
+    yield {"kind": "minmap", "w": None, "ic": False, "cmtn": [], "psyms": ["C", "O"], "ssyms": ["C"], "ps": ["C", "O"], "ss": ["C"]}
+    yield {"kind": "minmap", "w": None, "ic": False, "cmtn": [], "psyms": ["C"], "ssyms": ["C"], "ps": ["N"], "ss": ["C", "C"]}
+    yield {"kind": "minmap", "w": None, "ic": False, "cmtn": [], "psyms": ["C"], "ssyms": ["O"], "ps": ["C"], "ss": ["O"]}
+    yield {"kind": "sub2", "w": None, "ic": False, "cmtn": [], "G": _path(["C", "C"]), "P": _path(["O"]),
+           "gkind": "corpus-assert", "scheme": "contig/contig"}
 
 
 def mk(c):
@@ -237,6 +358,35 @@ def run_impl(c):
             if c["_cm"] != cm0:
                 mutated.append("can_map_to_nothing was modified by permute")
             return ("ok", outs, mutated[:3])
+        if c["kind"] == "minmap":
+            mm = MappingMatrix(list(c["psyms"]), list(c["ssyms"]), m)
+            order = matrix_order(mm)
+            ps, ss = list(c["ps"]), list(c["ss"])
+            try:
+                r = ("ok", mm.min_mapping_symbol(ps, ss))
+            except (ValueError, KeyError) as e:
+                r = (type(e).__name__, str(e)[:100])
+            if ps != c["ps"] or ss != c["ss"]:
+                mutated.append("min_mapping_symbol modified its arguments")
+            return ("ok", r, mutated, order)
+        if c["kind"] == "sub2":
+            G, P = gens.copy_exact(c["G"]), gens.copy_exact(c["P"])
+            gl = [d.get("symbol") for _, d in G.nodes(data=True)]
+            sl = [d.get("symbol") for _, d in P.nodes(data=True)]
+            mm = MappingMatrix(sl, gl, m)
+            order = matrix_order(mm)
+            runs = []
+            for matrix in (None, mm):
+                try:
+                    with contextlib.redirect_stdout(io.StringIO()):
+                        runs.append(("ok", map_subgraph2(G, P, m, matrix=matrix)))
+                except (ValueError, KeyError, AssertionError, IndexError) as e:
+                    runs.append((type(e).__name__, str(e)[:100]))
+            if runs[0] != runs[1]:
+                mutated.append("map_subgraph2 with the matrix it would build itself gives another answer: %r vs %r" % (runs[0], runs[1]))
+            if ct.graph_canon(G) != ct.graph_canon(c["G"]) or ct.graph_canon(P) != ct.graph_canon(c["P"]):
+                mutated.append("map_subgraph2 modified its graphs")
+            return ("ok", runs[0], mutated, order)
         ps, ss = list(c["psyms"]), list(c["ssyms"])
         mm = MappingMatrix(ps, ss, m)
         if ps != c["psyms"] or ss != c["ssyms"]:
@@ -300,6 +450,48 @@ def coq_case(c, out):
                 "checks": {"agree": "batch_agree " + args,
                            "spec": ("batch_sound_okb " if c["fast"] else "batch_okb ") + args},
                 "diag": ["batch_bad " + args]}
+    if c["kind"] in ("minmap", "sub2") and out[0] != "ok":
+        return {"defs": {"w": ct.b(True)}, "checks": {"agree": "false", "spec": "false"}, "diag": []}
+    if c["kind"] == "minmap":
+        r = out[1]
+        if r[0] == "ok":
+            if r[1] is None:
+                rt = "(MMSOk None)"
+            else:
+                if not (isinstance(r[1], tuple) and len(r[1]) == 2):
+                    raise ct.Unrepresentable("min_mapping_symbol returned %r" % (r[1],))
+                rt = "(MMSOk (Some (%s, %s)))" % (ct.s(r[1][0]), ct.s(r[1][1]))
+        else:
+            rt = {"ValueError": "MMSValueError", "KeyError": "MMSKeyError"}[r[0]]
+        defs = {"ord": strs(out[3]), "psyms": strs(c["psyms"]), "ssyms": strs(c["ssyms"]),
+                "ps": strs(c["ps"]), "ss": strs(c["ss"]), "out": rt}
+        args = "%s $psyms $ssyms $ps $ss" % mp
+        return {"defs": defs,
+                "checks": {"agree": "option_eqb mms_eqb (minmap_run $ord %s) (Some $out)" % args,
+                           "spec": "minmap_okb %s $out" % args},
+                "diag": ["minmap_run $ord %s" % args]}
+    if c["kind"] == "sub2":
+        r = out[1]
+        if r[0] == "ok":
+            rows = []
+            for x in r[1]:
+                if not (isinstance(x, tuple) and len(x) == 2 and isinstance(x[0], bool)):
+                    raise ct.Unrepresentable("map_subgraph2 entry %r" % (x,))
+                rows.append("(%s, %s)" % (ct.b(x[0]), mc.pairs(x[1])))
+            rt = "(MS2Ok (%s : list (bool * list (Z * Z))))" % ct.lst(rows)
+        elif r[0] == "ValueError":
+            rt = "MS2Disconnected" if "disconnected" in r[1] else "MS2TooLarge" if "more symbols" in r[1] else None
+            if rt is None:
+                raise ct.Unrepresentable("ValueError %r" % (r[1],))
+        else:
+            rt = {"KeyError": "MS2KeyError", "AssertionError": "MS2AssertionError", "IndexError": "(MS2Raise IndexError)"}[r[0]]
+        defs = {"ord": strs(out[3]), "G": ct.graph(c["G"]), "P": ct.graph(c["P"]), "out": rt}
+        spec = "map_subgraph2_okb $G $P %s $out" % mp
+        if cmtn_list(c["cmtn"]) == []:
+            spec += " && all_embeddingsb %s %s $G $P $out" % (ct.opt(c["w"], ct.s), ct.b(c["ic"]))
+        return {"defs": defs,
+                "checks": {"agree": "ms2_eqb (map_subgraph2 $ord $G $P %s None) $out" % mp, "spec": spec},
+                "diag": ["map_subgraph2 $ord $G $P %s None" % mp]}
     syms = matrix_syms(c)
     defs = {"ps": strs(c["psyms"]), "ss": strs(c["ssyms"]), "syms": strs(syms)}
     if out[0] == "ok":
@@ -314,17 +506,30 @@ def coq_case(c, out):
 
 
 def describe(c):
-    return {k: v for k, v in c.items() if not k.startswith("_")}
+    d = {k: v for k, v in c.items() if not k.startswith("_")}
+    if c["kind"] == "sub2":
+        d["G"], d["P"] = ct.graph_py(c["G"]), ct.graph_py(c["P"])
+    return d
 
 
 def from_json(d):
-    return dict(d)
+    d = dict(d)
+    if d["kind"] == "sub2":
+        d["G"], d["P"] = ct.graph_from_py(d["G"]), ct.graph_from_py(d["P"])
+    return d
 
 
 def describe_out(out):
     if out[0] != "ok":
         return {"status": out[0], "msg": out[1]}
     r = out[1]
+    if len(out) > 3 and isinstance(r, tuple):        # minmap / sub2: (status, value) + the observed matrix row order
+        v = r[1]
+        if r[0] == "ok" and isinstance(v, list):
+            v = [[x[0], [list(t) for t in x[1]]] for x in v]
+        elif isinstance(v, tuple):
+            v = list(v)
+        return {"status": r[0], "value": v, "matrix_row_order": out[3]}
     if len(repr(r)) > 4000:
         return {"status": "ok", "result_sizes": [len(x) for x in r][:400], "note": "batch; use --replay for details"}
     return {"status": "ok", "result": [[list(t) if isinstance(t, tuple) else t for t in m] if isinstance(m, list) else m for m in r]}
@@ -340,6 +545,10 @@ def key(c):
         return base + (tuple(c["p"]), tuple(c["s"]))
     if c["kind"] == "batch":
         return base + (tuple(c["p"]), tuple(c["alpha"]), c["n"])
+    if c["kind"] == "minmap":
+        return base + (tuple(c["psyms"]), tuple(c["ssyms"]), tuple(c["ps"]), tuple(c["ss"]))
+    if c["kind"] == "sub2":
+        return base + (ct.graph_canon(c["G"]), ct.graph_canon(c["P"]))
     return base + (tuple(c["psyms"]), tuple(c["ssyms"]), tuple(c["extra"]))
 
 
@@ -350,6 +559,10 @@ def nontrivial(c, out):
         return len(c["p"]) > 0 and len(out[1]) > 0
     if c["kind"] == "batch":
         return len(c["p"]) > 0 and any(len(r) > 0 for r in out[1])
+    if c["kind"] == "minmap":
+        return out[1][0] == "ok" and out[1][1] is not None and len(set(c["ps"])) >= 2
+    if c["kind"] == "sub2":
+        return out[1][0] == "ok" and len(out[1][1]) > 0 and c["P"].number_of_nodes() >= 2
     cells = [x for row in out[1] for x in row]
     return True in cells and False in cells
 
@@ -370,6 +583,15 @@ def classes(c, out):
             yield "one:uses-nothing"
     if out[0] == "ok" and c["kind"] == "batch":
         yield "batch:|p|=%d,n=%d" % (len(c["p"]), c["n"])
+    if out[0] == "ok" and c["kind"] == "minmap":
+        r = out[1]
+        yield "minmap:" + (r[0] if r[0] != "ok" else "None" if r[1] is None else "pair")
+        if r[0] == "ok" and r[1] is not None and (r[1][0] not in c["ps"] or r[1][1] not in c["ss"]):
+            yield "minmap:pair-not-in-query"
+    if out[0] == "ok" and c["kind"] == "sub2":
+        r = out[1]
+        yield "sub2:" + c["gkind"].split("-")[0]
+        yield "sub2:result=" + (r[0] if r[0] != "ok" else "0" if not r[1] else "1" if len(r[1]) == 1 else "2+")
 
 
 def py_invariants(c, out):
